@@ -54,18 +54,19 @@ SPECS.update({
     "C05": dict(
         harness="ftamper", src=["harness/ftamper.cpp"], plan=tamper_plan("c05"), level="fault_enumeration",
         rule="base files made by the reference plus a third of them written by wencry's own encrypt (quick: 30 covering every cipher x hash mode, T in {1,2,4}, 6 sizes; thorough: all 270); on each, EVERY single-bit flip, every byte value at offsets 0..9, "
-             "every truncation, 6 extensions, every one-byte and 16-byte deletion/insertion, every swap of two body blocks / chunks / IV fields (thorough: + header-byte x body-bit pairs); "
+             "every truncation, 6 extensions, every one-byte and 16-byte deletion/insertion, every swap of two body blocks / chunks / IV fields, the pair modification (tag byte 0 or whole tag := 0x00) x (every value of one of the last body bytes) (thorough: + header-byte x body-bit pairs); "
+             "plus four base files with T in {2,3,6,7} whose authenticated length mod 64 is 56/60 (two-block hash padding); "
              "one evaluation = verify + decrypt of one modified file; oracle: both fail, or both succeed with exactly the original plaintext; distinct = (modification kind, base file) classes",
         assumptions=ASSUME_FILE + ["single modifications only (plus the stated pairs); the known finding C05 hdr-byte-8 is matched by its key, any other accepted modification is a violation"]),
     "C06": dict(
         harness="ftamper", src=["harness/ftamper.cpp"], plan=tamper_plan("c06"), level="fault_enumeration",
-        rule="base files made by the reference AND the same files written by wencry's own encrypt x keys {all 128 single-bit neighbours, all-zero, all-FF, rotated, reversed}; one evaluation = verify + decrypt under the wrong key; "
+        rule="base files made by the reference AND the same files written by wencry's own encrypt x keys {all 128 single-bit neighbours, all-zero, all-FF, rotated, reversed}; one evaluation = verify + decrypt under the wrong key, for every second key preceded by a verify of the SAME file (same inode) with the right key; "
              "oracle: both report failure and the output stream holds 0 bytes; distinct = (base file, key class)",
         assumptions=ASSUME_FILE),
     "C11": dict(
         harness="ftamper", src=["harness/ftamper.cpp"], plan=tamper_plan("c11"), level="fault_enumeration",
         rule="malformed inputs: every truncation of 9 valid files, every length 0..80 of {zeros, FF, valid-prefix+garbage}, every magic prefix length, mode-byte pairs (quick: 11x11 border values; thorough: all 65,536) "
-             "on valid files of all 15 mode combinations, right-magic/wrong-tag files with 7 body lengths, plus a labelled pseudo-random sample (one file per length 0..300, NOT counted as exhaustive); "
+             "on valid files of all 15 mode combinations, right-magic/wrong-tag files with 7 body lengths, well-formed headers with a constant tag field (all 0x00 / all 0xFF) over 2,048 bodies per hash mode (thorough 16,384), plus a labelled pseudo-random sample (one file per length 0..300, NOT counted as exhaustive); "
              "one evaluation = verify + decrypt in a forked ASan child; oracle: normal return, success only if the tag is authentic, failed decrypt wrote 0 bytes, successful decrypt wrote <= body bytes",
         assumptions=ASSUME_FILE + ["files that carry a valid tag but were not produced by encryption are outside the property's domain and are not generated"]),
     "C12": dict(
@@ -100,24 +101,24 @@ SPECS.update({
     "C07": dict(
         harness="cryptolib", src=["harness/cryptolib.cpp"], plan=c07_plan, level="exploration",
         rule="getStringHash: every length 0..320 x {zeros, FF, counter, 0x80 at every single position}; getFileHash through filebuffer64 built with refill size 64/128/192 bytes: every length 0..3R+65, "
-             "with and without the 64-byte prefix block, start offsets 0..3; 2^29 bytes (thorough: 2^29-1, 2^29, 2^29+1, 2^29+57) fed through a buffer64 subclass, so that the bit counter crosses 2^32; "
+             "with and without the 64-byte prefix block, start offsets 0..3, contents {counter, all 0xFF, all 0x00}; string messages placed at every offset 0..7 from an aligned address; 2^29 bytes (thorough: 2^29-1, 2^29, 2^29+1, 2^29+57) fed through a buffer64 subclass, so that the bit counter crosses 2^32; "
              "all three algorithms; oracle = libcrypto digest; distinct = (entry point, algorithm, length mod 64, blocks/refills, prefix)",
         assumptions=ASSUME_LIB),
     "C08": dict(
         harness="cryptolib", src=["harness/cryptolib.cpp"], plan=lib_plan("c08"), level="exploration",
-        rule="hmac::gethmac on memfd files: 5 keys x 3 hash modes x every message length 0..3R+65 x start positions (quick: 10 incl. 0,47,48,49,64; thorough: 0..80); cmphmac with the right tag and with every single-bit-flipped tag; one hmac object reused over all 15 (mode,key) pairs in 8 orders must behave like fresh objects; "
+        rule="hmac::gethmac on memfd files: 5 keys x 3 hash modes x every message length 0..3R+65 x start positions (quick: 10 incl. 0,47,48,49,64; thorough: 0..80) x contents {counter, all 0xFF}; cmphmac with the right tag and with every single-bit-flipped tag; one hmac object reused over all 15 (mode,key) pairs in 8 orders must behave like fresh objects; "
              "files written by execute_encrypt (T in {1,2,3,4,5,16}, 3 cipher modes, 3 hash modes, lengths 0..2*chunk+17): bytes [10,10+hlen) == HMAC of [48,EOF), [10+hlen,48) zero; oracle = OpenSSL HMAC()",
         assumptions=ASSUME_LIB + ASSUME_FILE[:1]),
     "C09": dict(
         harness="cryptolib", src=["harness/cryptolib.cpp"], plan=lib_plan("c09", sanitize="none"), level="exploration",
         rule="tables exhaustively (S-box and inverse from the GF(2^8) definition, every log/antilog product the rounds can form for the 7 MixColumns constants x 256 values, Rcon); every (key, block) that differs from a base pair "
-             "in one key byte (16x256) and one block byte (16x256) - quick: FIPS-197 C.1 base fully + 3 other bases on a 1/5 lattice, thorough: 8 bases fully = 134M pairs; all 128x128 single-bit pairs on 4 (thorough 8) bases; "
+             "in one key byte (16x256) and one block byte (16x256) - quick: FIPS-197 C.1 base fully + 3 other bases on a 1/5 lattice, thorough: 8 bases fully = 134M pairs; all 128x128 single-bit pairs on 4 (thorough 8) bases; blocks placed at every offset 0..15 from a 16-byte boundary in turn; "
              "encrypt == libcrypto, decrypt(encrypt(x)) == x, decrypt == libcrypto; distinct = (base, key byte position)",
         assumptions=ASSUME_LIB + ["bounded-alphabet claim: 2^256 pairs cannot be enumerated; every table entry, byte position and single-byte data path is"]),
     "C10": dict(
         harness="cryptolib", src=["harness/cryptolib.cpp"], plan=lib_plan("c10", sanitize="none"), level="exploration",
         rule="objects from AesFactory::createCryMaster: 5 modes x 3 keys x 20 IVs (last k bytes 0xFF for k=0..16: counter carry through every depth, + 3 others) x ALL block sequences of length 0..4 over a 3-block alphabet (121; thorough: length 0..5 over 4 blocks = 1,365), "
-             "plus streams of 300 and 65,539 blocks (thorough: also 2^20+3); encryptor == EVP (no padding), decryptor(encryptor output) == input, decryptor == EVP decrypt; distinct = (mode, IV kind, stream length class)",
+             "plus streams of 300 and 65,539 blocks (thorough: also 2^20+3); working buffer at every offset 0..15 from a 16-byte boundary in turn, and every stream also through one reused 16-byte block; encryptor == EVP (no padding), decryptor(encryptor output) == input, decryptor == EVP decrypt; distinct = (mode, IV kind, stream length class)",
         assumptions=ASSUME_LIB),
     "C16": dict(
         harness="cryptolib", src=["harness/cryptolib.cpp"], plan=lib_plan("c16"), level="exploration",
